@@ -456,6 +456,11 @@ func (w *Writer) ReadFrom(src io.Reader) (n int64, err error) {
 
 		w.n += nn
 		n += int64(nn)
+		if nn > 0 {
+			// Accepted data belongs to the message: Flush() must terminate it
+			// even if src fails (or stalls) later on.
+			w.dirty = true
+		}
 	}
 	if err == io.EOF {
 		// NOTE: Do not flush preemptively.
